@@ -559,6 +559,70 @@ fn one_case(ctx: &Ctx, case: u64, l: &mut Local) {
             structural(&mut j, &format!("resigned-with-key-announced-in-header-{}", ha.name()), Some(forged), &fixed);
         }
     }
+    // ---- the header names one algorithm, the (valid!) signature was made with another one of the
+    // resolver's key: the algorithm is what the header says, never what the signature happens to fit
+    {
+        let payload: Value = t.parts.payload().unwrap_or(Value::Null);
+        for label in ["ES384", "ES512", "ES256K", "RS256", "PS256", "EdDSA", "ES256", "HS256", "HS384", "none", "Ed25519", "es256"] {
+            if label == alg.name() {
+                continue;
+            }
+            let forged = api::sign_raw(&json!({"alg": label, "typ": "JWT"}), &payload, alg.jwt(), &keys::issuer_enc(alg, 0));
+            structural(&mut j, &format!("alg-mislabelled-{label}-signature-valid-under-real-alg"), Some(forged), &fixed);
+        }
+    }
+    // ---- no `iss` in the signed payload; disclosures named iss (one unreferenced naming the signer
+    // B, one referenced naming A): the issuer is what is SIGNED in clear, a disclosure cannot supply it
+    if t.kb.is_none() {
+        let mut pl: Value = t.parts.payload().unwrap_or(Value::Null);
+        if let Some(o) = pl.as_object_mut() {
+            o.remove("iss");
+            let d_good = crate::model::b64e(json!(["s-iss-1", "iss", "https://issuer.example/A"]).to_string().as_bytes());
+            let d_evil = crate::model::b64e(json!(["s-iss-2", "iss", "https://issuer.example/B"]).to_string().as_bytes());
+            let mut sdl = o.get("_sd").and_then(Value::as_array).cloned().unwrap_or_default();
+            sdl.push(json!(crate::model::digest_of(&d_good)));
+            o.insert("_sd".into(), Value::Array(sdl));
+            o.entry("_sd_alg").or_insert(json!("sha-256"));
+            for order in 0..2 {
+                let mut q = t.parts.clone();
+                q.jwt = api::sign_payload(alg, 1, &pl, None);
+                let extra = if order == 0 { vec![d_evil.clone(), d_good.clone()] } else { vec![d_good.clone(), d_evil.clone()] };
+                q.disclosures = extra.into_iter().chain(t.parts.disclosures.iter().cloned()).collect();
+                let v = verify_parts(&t, &q, &Resolver::ByIss(alg));
+                j.l.count("fault.structural.kind.iss-only-in-disclosures");
+                j.l.distinct(crate::rng::mix(case ^ gen::hash_str("iss-disc") ^ order));
+                j.reject("structural", &format!("no signed iss, iss supplied by disclosures, signed by issuer B's key ({} {})", alg.name(), fmt.name()), v, || json!({"order": order}));
+            }
+        }
+    }
+    // ---- JSON only: an unprotected `header` member that overrides protected parameters (kid, alg):
+    // the resolver sees the PROTECTED header, and a token signed by key 1 under protected kid k0 fails
+    if fmt == Fmt::Json && t.kb.is_none() {
+        let payload: Value = t.parts.payload().unwrap_or(Value::Null);
+        let jwt = api::sign_raw(&json!({"alg": alg.name(), "kid": "k0"}), &payload, alg.jwt(), &keys::issuer_enc(alg, 1));
+        if let Some(sg) = tamper::segments(&jwt) {
+            for (k, unprot) in [json!({"kid": "k1"}), json!({"kid": "k1", "alg": alg.name()}), json!({"kid": "k1", "disclosures": t.parts.disclosures})].iter().enumerate() {
+                for mname in ["header", "unprotected"] {
+                    let mut m = serde_json::Map::new();
+                    m.insert("protected".into(), json!(sg[0]));
+                    m.insert("payload".into(), json!(sg[1]));
+                    m.insert("signature".into(), json!(sg[2]));
+                    m.insert("disclosures".into(), json!(t.parts.disclosures));
+                    m.insert(mname.into(), unprot.clone());
+                    let text = Value::Object(m).to_string();
+                    let v = api::verify(&text, &Resolver::ByKid(alg), None, fmt);
+                    if let Some(c) = v.resolver_calls.first() {
+                        if c.header.get("kid").and_then(Value::as_str) != Some("k0") {
+                            j.l.violate(Violation { subcheck: "resolver-invocation".into(), class: "unprotected header member".into(), observed: "resolver saw a kid other than the protected header's".into(), case, detail: json!({"document": text, "resolver_saw": c.header}) });
+                        }
+                    }
+                    j.l.count("fault.structural.kind.unprotected-header-overrides");
+                    j.l.distinct(crate::rng::mix(case ^ gen::hash_str(mname) ^ ((k as u64) << 4) ^ 0x77));
+                    j.reject("structural", &format!("signed by key 1, protected kid k0, unprotected `{mname}` says k1 ({} JSON)", alg.name()), Some(v), || json!({"document": text}));
+                }
+            }
+        }
+    }
     // ---- look-alikes of the `iss` member in the payload (other case, blanks) naming another issuer,
     // placed before / after the real one: the resolver is asked for the member called exactly "iss"
     if t.kb.is_none() && t.iss.ends_with("/A") {
